@@ -2646,33 +2646,15 @@ avx_rule_subusl_slow (OrcCompiler *p, void *user, OrcInstruction *insn)
   const int src1 = p->vars[insn->src_args[1]].alloc;
   const int dest = p->vars[insn->dest_args[0]].alloc;
   const int tmp = orc_compiler_get_temp_reg (p);
-  const int tmp2 = orc_compiler_get_temp_reg (p);
   const int size = p->vars[insn->src_args[0]].size << p->loop_shift;
 
+  /* max (a, b) - b: a - b when a > b (unsigned), 0 otherwise */
   if (size >= 32) {
-    orc_avx_emit_psrld_imm (p, 1, src1, tmp2);
-
-    orc_avx_emit_psrld_imm (p, 1, src0, tmp);
-    orc_avx_emit_psubd (p, tmp2, tmp, tmp2);
-
-    /* turn overflow bit into mask */
-    orc_avx_emit_psrad_imm (p, 31, tmp2, tmp2);
-
-    /* compute the difference, then and over the mask */
-    orc_avx_emit_psubd (p, src0, src1, dest);
-    orc_avx_emit_pand (p, tmp2, dest, dest);
+    orc_avx_emit_pmaxud (p, src0, src1, tmp);
+    orc_avx_emit_psubd (p, tmp, src1, dest);
   } else {
-    orc_avx_sse_emit_psrld_imm (p, 1, src1, tmp2);
-
-    orc_avx_sse_emit_psrld_imm (p, 1, src0, tmp);
-    orc_avx_sse_emit_psubd (p, tmp2, tmp, tmp2);
-
-    /* turn overflow bit into mask */
-    orc_avx_sse_emit_psrad_imm (p, 31, tmp2, tmp2);
-
-    /* compute the difference, then and over the mask */
-    orc_avx_sse_emit_psubd (p, src0, src1, dest);
-    orc_avx_sse_emit_pand (p, tmp2, dest, dest);
+    orc_avx_sse_emit_pmaxud (p, src0, src1, tmp);
+    orc_avx_sse_emit_psubd (p, tmp, src1, dest);
   }
 }
 
